@@ -117,6 +117,32 @@ def run(tier: str, seed: int) -> int:
     run_.exhaustive = True
     run_.assumptions = ["fft conventions (C04)", "numpy cos for the closed-form derivatives", "tolerance 1e-10 relative"]
     shutil.rmtree(work, ignore_errors=True)
+    # ---- indexing="xy": component d of the gradient is the derivative along coordinate d of make_grid(indexing="xy") (Layout: the xy tables
+    # are the ij tables with the first two axes exchanged), for D = 2, 3, against the closed form on that very grid
+    for D, N in ((2, 8), (2, 9), (3, 6), (3, 7)):
+        L = 2.0
+        omega = 2 * np.pi / L
+        X = np.asarray(ex.make_grid(D, L, N, indexing="xy"))
+        for rep in range(3):
+            kap = [int(rng.integers(-((N - 1) // 2), (N - 1) // 2 + 1)) for _ in range(D)]
+            if rep == 0:
+                kap = ([1, 2, 3] if (N - 1) // 2 >= 3 else [1, 2, 1])[:D]      # distinct wavenumbers per coordinate (below Nyquist): a permutation of the components shows
+            phi = float(rng.uniform(-3, 3))
+            theta = omega * sum(kap[d] * X[d] for d in range(D)) + phi
+            u = np.cos(theta)[None]
+            dop = np.asarray(ex.spectral.build_derivative_operator(D, L, N, indexing="xy"))
+            dop_ij = np.asarray(ex.spectral.build_derivative_operator(D, L, N))
+            perm = [1, 0, 2][:D]
+            run_.case(("derivative-xy", D, N, tuple(kap)))
+            if dop.shape != dop_ij.shape or any(maxabs(dop[d] - dop_ij[perm[d]]) > 1e-12 * (1 + maxabs(dop_ij)) for d in range(D)):
+                run_.violation({"kind": "operator", "D": D, "N": N, "what": "build_derivative_operator(indexing=xy)"}, {})
+            for m in (1, 2, 3):
+                got = np.asarray(ex.derivative(jnp.asarray(u), L, order=m, indexing="xy")).reshape((D,) + (N,) * D)
+                for d in range(D):
+                    want = (omega * kap[d]) ** m * np.cos(theta + m * np.pi / 2)
+                    if maxabs(got[d] - want) > 1e-9 * (1 + (omega * max(1, max(map(abs, kap)))) ** m):
+                        run_.violation({"kind": "derivative-analytic", "D": D, "N": N, "order": m, "what": "indexing=xy"}, {"kappa": kap, "component": d})
+                        break
     # ---- large grids, high orders: the symbol (i w k_d)^m of the specification (Symbols.DerivativeTerms, checked by TLC for k <= 16 where
     # k^6 fits its 32-bit integers) evaluated for k up to 64 in floating point: single modes and a random trigonometric polynomial
     for D, N in ((1, 128), (1, 81), (2, 80)):
